@@ -17,29 +17,6 @@ open Ls Ls.Recv
 
 variable {ι : Type} [DecidableEq ι]
 
-/-- reachable from the initial state of a receiver of instance `own` with the two limits -/
-def RReach (own : ι) (dl dc : Nat) (s : St ι) : Prop := ∃ steps, run (init own dl dc) steps = some s
-
-/-- reachable by a run whose steps satisfy an environment assumption -/
-def RReachE (ok : St ι → Step ι → Prop) (own : ι) (dl dc : Nat) (s : St ι) : Prop :=
-  ∃ steps, AllOk ok (init own dl dc) steps ∧ run (init own dl dc) steps = some s
-
-theorem getDl_with {s1 s2 : St ι} (h : s1.dls = s2.dls) (d : ι) : getDl s1 d = getDl s2 d := by
-  unfold getDl; rw [h]
-
-theorem rreach_inv {own : ι} {dl dc : Nat} {s : St ι} (h : RReach own dl dc s) :
-    Inv s ∧ InvL s ∧ InvK s ∧ InvD s ∧ s.own = own ∧ s.dlLimit = dl ∧ s.dcLimit = dc := by
-  obtain ⟨steps, hr⟩ := h
-  have a := inv_run steps (inv_init own dl dc) hr
-  have b := run_induct InvL (fun _ _ => True) (fun _ _ _ hp _ hs => invL_step hp hs) steps _ _
-    (invL_init own dl dc) (allOk_true _ steps) hr
-  have c := run_induct InvK (fun _ _ => True) (fun _ _ _ hp _ hs => invK_step hp hs) steps _ _
-    (invK_init own dl dc) (allOk_true _ steps) hr
-  have d := run_induct InvD (fun _ _ => True) (fun _ _ _ hp _ hs => invD_step hp hs) steps _ _
-    (invD_init own dl dc) (allOk_true _ steps) hr
-  obtain ⟨e1, e2, e3⟩ := consts_run steps hr
-  exact ⟨a, b, c, d, e1, e2, e3⟩
-
 /-! ### C16_tokens -/
 
 /-- **Token conservation.** In every reachable state, for both limits, free + held = limit:
